@@ -17,7 +17,7 @@ def delay_form(ex, t, depth=6):
 
     def f(x):
         if x[0] == "obj":
-            ws = writers_of(ex, x)
+            ws = writers_of(ex, x, "any")
             if len(ws) == 1 and ws[0].guard is True and ws[0].part is None:
                 inner = delay_form(ex, ws[0].rhs, depth - 1)
                 return ("prev", inner) if is_sync(ws[0].fact.domain) else inner
@@ -73,7 +73,7 @@ def check_class(ctx, cls, method, role):
             ctx.check(fd == want, "C30.sampled-data", b.site, f"{cls}.get.ret[{cn}]", found=tstr(fd) if fd else "none", required=tstr(want) + "  (data synchronised exactly when the trigger is)")
             no_effects(ctx, "C30.get-effect-free", comp, ex, b)
         else:
-            ws = writers_of(ex, pat("self.data"))
+            ws = writers_of(ex, pat("self.data"), "any")
             ok = len(ws) == 1 and enclosing_body(ex, ws[0].fact) is b and is_sync(ws[0].fact.domain) and ws[0].rhs == ("arg", b.bodyid) and equivalent(ws[0].guard, run_f(b)) is None
             ctx.check(ok, "C30.output-data", ws[0].fact.site if ws else b.site, f"{cls}.data[{cn}]", found="; ".join(f"{tstr(w.fact.domain)} += data.eq({tstr(w.rhs)}) if {fstr(w.guard)}" for w in ws) or "no driver",
                       required="data <- argument in sync, only when put runs: driven from the next cycle and held")
